@@ -152,6 +152,7 @@ func refRender(ns []bnode, defs map[string][][]bnode, leaf int, cur string, curL
 }
 
 func suiteC10(cfg Config, res *Result) {
+	defer c10ReentrantBlocks(res)
 	defer c10Depth(res)
 	defer c10Blocks(res)
 	defer c10Fixed(res)
